@@ -196,7 +196,9 @@ struct Link {
             else if (kind == 'w' && t == "s") tl->write(p, "s", d.args[0].s);
             else if (kind == 'w' && t == "si") tl->write(p, "si", d.args[0].s, d.args[1].i);
             else if (kind == 'w' && t == "is") tl->write(p, "is", d.args[0].i, d.args[1].s);
-            else if (kind == 'w' && t == "f") tl->write(p, "f", (double)d.floats[0]);
+            // a float travels through the varargs as double; NaN payloads do not survive that, so
+            // NaNs go through writeArray (same encoder, bits untouched)
+            else if (kind == 'w' && t == "f" && d.floats[0] == d.floats[0]) tl->write(p, "f", (double)d.floats[0]);
             else if (kind == 'w' && t == "T") tl->write(p, "T");
             else tl->writeArray(p, t.c_str(), d.args.data());
         }
